@@ -66,7 +66,7 @@ def gen_model(rng, fn, kind, nmax=8):
     matrix = kind in MATRIX
     n = rng.randint(2, nmax)
     ids = sorted(rng.sample(range(nmax + 1), n)) if (matrix and rng.random() < 0.25) else list(range(n))
-    labels = "int" if matrix else rng.choice(Labels.STYLES)
+    labels = "int" if matrix else rng.choice(Labels.STYLES_X)
     seen, ops = set(), []
     for _ in range(rng.randint(2, 12)):
         ln = rng.choice([1, 2, 2, 2] if deg2 else [1, 2, 2, 3, 3, 4])
